@@ -69,8 +69,8 @@ def run_monitor(sc, event_files, v, module="Mon_Prio"):
                     n_lines += 1
     r = tlc(mon, module, cfg=module + ".cfg", workers=8, timeout=1500, extra=["-continue"])
     tool_errors = [l for l in r.out.splitlines() if l.startswith("Error:") and "Invariant" not in l and "behavior up to this point" not in l]
-    # every record yields one state, except the rest of a trace after its first offending record
-    if not r.finished or r.distinct == 0 or tool_errors or (r.crashed and not r.inv_violated) or (r.distinct < n_lines and not r.inv_violated):
+    # every record yields one state
+    if not r.finished or r.distinct == 0 or tool_errors or (r.crashed and not r.inv_violated) or r.distinct < n_lines:
         raise Inconclusive("monitor TLC failed (%d records, %d states, %s)\n%s" % (n_lines, r.distinct, tool_errors[:2], r.out[-3000:]))
     v.add_tlc(r, module + " (observation monitor over recorded real traces)")
     # TLC reports only the first violated invariant of a state: take the property ids from the `viol` set of the reported state
